@@ -182,6 +182,10 @@ def run(tier, wd):
                      {"names": ["sub"], "path": "app sub", "spec": "", "opts": [], "intopt": "", "args": [], "subs": [], "action": True}]
             vcases.append({"nodes": nodes, "version": "v version", "policy": rnd.choice(["continue", "exit", "panic"]), "argv": argv})
             vmeta.append((m, s_))
+            if argv in (["--help"], ["sub"]):
+                # ... and on an application object whose earlier Run was already rejected for that spec
+                vcases.append({"nodes": nodes, "version": "v version", "policy": rnd.choice(["continue", "exit", "panic"]), "argv": argv, "prerun": [[], ["x"]]})
+                vmeta.append((m, s_))
     vres = core.run_harness(binpath, "tree", vcases, sub)
     for (m, s_), c, r in zip(vmeta, vcases, vres):
         rep.cov["evaluations"] += 1
@@ -190,8 +194,8 @@ def run(tier, wd):
         if r.get("hang") or r.get("crash"):
             rep.violation("application spec %r, argv %s: %s" % (s_, c["argv"], r), {"engine": "treeparse", "case": c})
         elif not r.get("panic", "").startswith("error:Parse error") or r["log"] or r.get("version"):
-            rep.violation("application with the ill-formed spec %r run with %s: Run must panic with the spec error; panic=%r, ran %s, version printed=%s" % (
-                s_, c["argv"], r.get("panic"), r["log"], r.get("version")), {"engine": "treeparse", "case": c})
+            rep.violation("application with the ill-formed spec %r run with %s%s: Run must panic with the spec error; panic=%r, ran %s, version printed=%s" % (
+                s_, c["argv"], " after earlier runs %s" % c["prerun"] if c.get("prerun") else "", r.get("panic"), r["log"], r.get("version")), {"engine": "treeparse", "case": c})
     rep.cov["application_spec_errors_with_requests"] = len(vcases)
     rep.cov["kind_sequences"] = len(seqs)
     rep.cov["traces_validated_against_impl"] = len(rows) + len(strs) + len(seqs)
